@@ -189,6 +189,64 @@ prop("C18", "cl",
      "1024,1536}: exactly n bits, top bit set, no repeats for n>=64; rand_int(a,b) in [a,b] incl. a=b, negative a, both end points reachable.",
      CL_BASE, (1500, 9000), (900, 7200), min_counters={"key_pairs_recorded": 3})
 
+prop("C14", "cl",
+     "one case = (CL suite, n, hidden set U, with/without trusted-party commitment, edit kind / tampered field class). Fresh keys, "
+     "bases and a commitment key with its own modulus from the real generators. For n = 1..=3 (quick) / 1..=5 (thorough) and ALL "
+     "non-empty hidden sets U: commit_with_pk -> generate_proof -> verify_proof = true -> blind_sign returns -> unblind_sign -> "
+     "verify_multiattr(full vector) = true; update_signature after changing a revealed attribute verifies on the updated vector, "
+     "not on the old one (and the old signature not on the new vector). Mismatches (oracle: verify_proof != true and blind_sign "
+     "does not return; its panic is the refusal): commitment to other attributes, commitment value + 1, every other hidden set, "
+     "other bases, other pk, other trusted commitment; every integer leaf of the serialized ZKPoK +1 / -1 / zero and sibling "
+     "swaps (every field class at least once), blind_sign attempted on a sample of tampered proofs.",
+     CL_BASE, (600, 6000), (1800, 10800),
+     exhaustive_subspaces=["all non-empty hidden subsets for n = 1..=3 (quick) / 1..=5 (thorough), with and without trusted commitment"],
+     min_counters={"zkpok_tampered_variants": 200})
+
+prop("C15", "cl",
+     "one case = (CL suite, n, hidden set U, edit kind / tampered field class). For n = 1..=3 / 1..=5 and ALL subsets U (incl. none "
+     "and all): sign_multiattr -> proof_gen -> proof_verify = true, JSON round trip verifies. Oracle for edits: proof_verify != true "
+     "(panic counts as not verifying): each revealed attribute changed / swapped, signer key (other, b<->c), bases (other, rotated), "
+     "commitment key (other, rotated bases, h squared, other modulus), every other hidden set, attribute count n+-1 with a non-zero "
+     "difference, proof of another signature, proof generated from a mismatching signature; every integer leaf of the serialized "
+     "proof +1 / -1 / zero and sibling swaps for selected proofs. (An extra / dropped attribute equal to 0 contributes a^0 = 1 and "
+     "is the same statement: not asserted.)",
+     CL_BASE, (500, 5000), (1800, 10800),
+     exhaustive_subspaces=["all hidden subsets for n = 1..=3 (quick) / 1..=5 (thorough)"],
+     min_counters={"proof_tampered_variants": 200})
+
+prop("C16", "cl",
+     "one case = (CL suite, interval start class, width class, value class / edit kind / transplant variant x target). Bases (g_0, h) "
+     "of a generated commitment key over the issuer modulus; a in {0, 1, 2^(le-1)+1, random 256-bit}, w in {1,2,3,4,255,256,2^64,"
+     "2^256-1, 2^(le-1)-2, 2^1024-1,..}; x in {a, a+1, mid, b-1, b, random} => prove + verify = true and proof.E is the commitment; "
+     "x in {a-1, b+1, a-2^20, b+2^20, a-2^300, b+2^300, 2b+1} => no accepted proof (panic or false). Honest proof against bounds "
+     "a+-1 / b+-1 / shifted, swapped / other bases, h^2, other modulus => false. Transplants of the honest proof onto commitments to "
+     "a-1, b+1, b+2^64, 10b, a-2^64, a random group element and the same value under other randomness, in four variants (recompute "
+     "E_*_1 keeping all sub-proofs; recompute E_*_2; replace E only; recompute E_*_1 and re-point the square proofs' E) => false. "
+     "Every integer leaf +1 / -1 / zero and sibling swaps for selected proofs => false. Domain 0 <= a < b.",
+     CL_BASE, (1500, 12000), (1800, 10800), min_counters={"transplants": 200, "proof_tampered_variants": 100})
+
+prop("C17", "cl",
+     "one case = one honest serialized proof (issuance ZKPoK for every non-empty hidden set, signature PoK for every hidden set, "
+     "n = 1..=3 / 1..=4). The monitor plays the recipient: candidate commitment values = every integer leaf that is a residue mod N "
+     "(+ the public commitment), candidate randomness rho = EVERY integer leaf of the proof, base pairs (a_i, b) and (g_i, h); for "
+     "every secret x the prover holds (hidden m_i, e, s, commitment randomness r) it tests value == g^x * h^rho, with a decoy x' per "
+     "secret (dictionary attack succeeds iff true value confirmed and decoy not); value * g^(-rho) == v; the whole hidden vector "
+     "from multi-base commitments; and complete openings (g^leaf1 * h^leaf2 == value) made of proof fields only. A violation names "
+     "the leaking (value field, randomness field) pair and the secret.",
+     CL_BASE + ["secrets internal to proof_gen (w, rw, rx, re) are only tested through fields of the proof itself"],
+     (20, 60), (1800, 10800), min_counters={"dictionary_attacks_run": 40, "modular_exponentiations": 3000})
+
+prop("C19", "cl",
+     "one case = one honest serialized proof (as C17). For every integer leaf s, every Fiat-Shamir challenge c recomputable from "
+     "public data (explicit challenge / C fields, C mod 2^t, nisp2sec challenges H(g||h||commitment||t) for every base pair, "
+     "nispMultiSecrets challenges) and every other leaf s': |floor(s/c) - x| >= 2^64 and |floor(s/s') - x| >= 2^64 for every "
+     "secret x the prover holds (hidden m_i, e, s, commitment randomness r) and for the values each Boudot sub-proof answers for "
+     "(square roots / remainders, public functions of a known secret and the public bounds: keyed `derived-witness`); plus the "
+     "attacker's inversion of Boudot's square decomposition x' = (floor(d/c)^2 + aa)/2^T resp. (bb - floor(d/c)^2)/2^T.",
+     CL_BASE + ["with correctly sized masks (top bit forced by random_bits) the bound holds deterministically for s/c and with "
+                "probability > 1 - 2^-190 for s/s': no false alarms"],
+     (20, 60), (1800, 10800), min_counters={"divisions": 50000, "boudot_inversions_run": 50})
+
 
 def post_C13(drv, res, binary, tier, seed):
     import cl_offline
